@@ -5,4 +5,6 @@ Require Extraction.
 Require ExtrOcamlBasic.
 From Pnc Require Import Reader.
 Extraction Language OCaml.
-Extraction "reader_model.ml" open_model open_flat consistent decode c04_valid expected_open.
+Extraction "reader_model.ml" open_model open_flat consistent decode c04_valid expected_open
+  w_rndup_int w_attr_null w_attrV_mul w_attr_xlen w_shape_product w_var_calloc w_check_vlen w_begin_len
+  w_numrecs_neg w_dim_neg w_alloc_dims w_read_zeros.
